@@ -223,7 +223,9 @@ type valArea struct{ cfgs []*config }
 func (a *valArea) Gen(r *hx.Rng, n int, _ string, emit func(string)) {
 	for i := 0; i < n; i++ {
 		var s string
-		switch r.Intn(12) {
+		switch r.Intn(14) {
+		case 12, 13: // comparison / logical results used as numbers
+			s = boolExpr(r)
 		case 10, 11: // literals that are hard to convert (rounding midpoints, range limits, syntax edges)
 			s = literalExpr(r)
 		case 0, 1:
